@@ -34,7 +34,7 @@ REQUIRED = ["port_histories", "views_compared", "renames", "deletes",
             "features_refreshes", "early_port_status",
             "other_messages_sharing_a_request_xid", "views_read_inside_the_handler",
             "nexus_level_stats_events_compared", "port_views_of_two_connections_compared",
-            "parts_on_a_second_connection"]
+            "parts_on_a_second_connection", "raw_replies_halted_on_the_nexus"]
 TIMEOUT = {"quick": 900, "thorough": 7200}
 
 REASON_ADD, REASON_DELETE, REASON_MODIFY = 0, 1, 2
@@ -334,6 +334,23 @@ def run_stats (case, rep):
         nexus_got.append((st, ids))
       return h
     lids.append(core.openflow.addListenerByName(name, mkn(st)))
+  if case.get("halt_raw"):
+    # somebody handles the raw replies on the nexus and stops them there
+    # (halting keeps a raw event from going on to the connection; the
+    #  aggregated events are no business of the raw event's listeners)
+    from pox.lib.revent import EventHalt
+    nraw = [0]
+    def raw_h (e):
+      if e.connection is not con: return
+      nraw[0] += 1
+      how = case["halt_raw"]
+      final = not (e.ofp.flags & 1)
+      if how == "all" or (how == "final" and final) or (how == "first" and nraw[0] == 1) \
+         or (how == "parts" and not final):
+        rep.count("raw_replies_halted_on_the_nexus")
+        if nraw[0] % 2: return EventHalt
+        e.halt = True
+    lids.append(core.openflow.addListenerByName("RawStatsReply", raw_h))
   # a second connection whose replies use the same transaction ids and types
   other = None
   other_got = []
@@ -667,6 +684,7 @@ def gen_stats (rng, n):
     case = dict(kind="stats", dpid=[0, 201, 202, (1 << 64) - 1 - 2000, 204][ci % 5], requests=reqs, order=order,
                 interleaved=bool(inter), mode=mode)
     if rng.random() < 0.3: case["second_connection"] = True
+    if rng.random() < 0.3: case["halt_raw"] = rng.choice(["all", "final", "first", "parts"])
     yield case
 
 
